@@ -129,10 +129,29 @@ func Lt(t *Thread, x, y Value) (bool, error) {
 	return false, compareError(x, y)
 }
 
+// The comparisons below are mathematically exact.  When f has an exact int64
+// value the integers are compared.  Otherwise f is either not an integer, in
+// which case it is compared with the float nearest to n (this cannot change the
+// outcome as there is an integer between them), or it is outside the range of
+// int64 (or NaN), in which case its sign decides: comparing with float64(n)
+// would be wrong for f = 2^63, since float64(n) rounds up to 2^63 for n close
+// to math.MaxInt64.
+
+const (
+	minIntAsFloat = -(1 << 63) // exactly representable
+	maxIntAsFloat = 1 << 63    // first float above all int64 values
+)
+
 func ltIntAndFloat(n int64, f float64) bool {
 	nf := int64(f)
 	if float64(nf) == f {
 		return n < nf
+	}
+	if f >= maxIntAsFloat {
+		return true
+	}
+	if f < minIntAsFloat {
+		return false
 	}
 	return float64(n) < f
 }
@@ -142,6 +161,12 @@ func ltFloatAndInt(f float64, n int64) bool {
 	if float64(nf) == f {
 		return nf < n
 	}
+	if f >= maxIntAsFloat {
+		return false
+	}
+	if f < minIntAsFloat {
+		return true
+	}
 	return f < float64(n)
 }
 
@@ -150,6 +175,12 @@ func leIntAndFloat(n int64, f float64) bool {
 	if float64(nf) == f {
 		return n <= nf
 	}
+	if f >= maxIntAsFloat {
+		return true
+	}
+	if f < minIntAsFloat {
+		return false
+	}
 	return float64(n) <= f
 }
 
@@ -157,6 +188,12 @@ func leFloatAndInt(f float64, n int64) bool {
 	nf := int64(f)
 	if float64(nf) == f {
 		return nf <= n
+	}
+	if f >= maxIntAsFloat {
+		return false
+	}
+	if f < minIntAsFloat {
+		return true
 	}
 	return f <= float64(n)
 }
